@@ -420,6 +420,9 @@ def assign_vehicle_id(input, vehicle_types, export=None):
             # go through rotations in order, stop at same or higher departure
             if r["min_departure_time"] >= min_departure_time:
                 break
+        else:
+            # no later rotation found: append
+            i = len(rotations_in_progress)
         rot["min_departure_time"] = min_departure_time
         # insert at calculated index
         rotations_in_progress.insert(i, rot)
